@@ -309,6 +309,7 @@ def write_replay(prop, f, ctx_min, root, reproduced, extra=None):
 def replay(prop, path, tree, workdir):
     """Re-executes a replay file against the current tree; exit 1 iff the same class reappears."""
     doc = json.load(open(path))
+    doc["_path"] = path
     if doc.get("kind_of_replay") == "replicas":
         from . import replicas
         return replicas.replay(prop, doc, tree, workdir)
@@ -394,11 +395,18 @@ def finish_check(prop, tier, root, results, t0, tree, workdir, level_text, rule,
     for (oracle, kind), fs in sorted(new.items()):
         fs.sort(key=lambda f: (len(f["ctx"]["script"]), len(f["ctx"]["source"])))
         f = fs[0]
-        try:
-            ctx_min, ok = minimise(f, workdir, tree, 60.0, f.get("_canaries"))
-        except Exception:
-            ctx_min, ok = f["ctx"], False
-        path = write_replay(prop, f, ctx_min, root, ok, {"canaries": f.get("_canaries"), "occurrences": len(fs)})
+        extra = {"canaries": f.get("_canaries"), "occurrences": len(fs)}
+        if "replicas" in f["ctx"] or "envs" in f["ctx"]:
+            # replica disagreements are replayed by re-running every recorded replica
+            ctx_min, ok = f["ctx"], None
+            extra.update({"kind_of_replay": "replicas", "replicas": f["ctx"].get("replicas"), "envs": f["ctx"].get("envs"),
+                          "ref_script": f["ctx"].get("ref_script")})
+        else:
+            try:
+                ctx_min, ok = minimise(f, workdir, tree, 60.0, f.get("_canaries"))
+            except Exception:
+                ctx_min, ok = f["ctx"], False
+        path = write_replay(prop, f, ctx_min, root, ok, extra)
         violations.append({"oracle": oracle, "kind": kind, "count": len(fs), "replay": path, "detail": f["detail"][:500],
                            "label": f["ctx"].get("label"), "argv": ctx_min["argv"]})
     wall = time.time() - t0
